@@ -12,11 +12,17 @@ def _replace():
 
 def run(ctx):
     n = {"quick": 800, "thorough": 16000}[ctx.tier]
+    nw = {"quick": 160, "thorough": 3000}[ctx.tier]
 
     def stages(ctx, mult, suffix, off):
         ctx.stage("c20" + suffix, "lib/controller/federation", "federation", ["C20/zz_verif_c20_test.go"], "TestVerifC20$",
                   n * mult, HDR.format(imports="model.C20_model model.C20_entry model.C20_run"), seed_offset=off, shard=75, pam=True, replace=_replace(),
                   env={"VERIF_STAGE": "c20" + suffix})
+        # the same requests with every stub behind rpc.Conn -> HTTP -> router (and half of the time the federating
+        # Conn too), batches of 26..39 uuids for one cluster: the wire encoding of long requests is in the loop
+        ctx.stage("c20wire" + suffix, "lib/controller/federation", "federation", ["C20/zz_verif_c20_test.go"], "TestVerifC20$",
+                  nw * mult, HDR.format(imports="model.C20_model model.C20_entry model.C20_run"), seed_offset=off + 500, shard=20, pam=True,
+                  replace=_replace(), env={"VERIF_STAGE": "c20wire" + suffix})
     return standard(ctx, "C20", ["model/C20_run.vo"], stages, known_bits={4: "F9"},
                     rule="random list requests through the entry points Conn.{Collection,Container,ContainerRequest,Group,Specimen,User}List "
                          "under every kind of Login.LoginCluster setting (unset / the cluster itself / a remote / an unknown cluster / "
